@@ -19,7 +19,7 @@ def model_case(case, impl):
         return None
     idx, bit, _ = impl.split(";", 2)
     f = case.split(" ")
-    return f"{f[0]} {f[1]} {idx} {bit}"
+    return f"{f[0]} {f[1]} {idx} {bit}"          # for c18.filter the regex itself is not passed on: the verdicts are
 
 
 def impl_view(case, impl):
@@ -33,7 +33,9 @@ def _sorted(s):
     return ",".join(hexs(x) for x in sorted(items))
 
 
-PROJ = {"c18.list": _sorted, "c18.file": _sorted}
+PROJ = {"c18.list": _sorted, "c18.file": _sorted, "c18.filter": _sorted}
+FILTERS = [b"web", b"^web01$", b"^web01", b"web01$", b"^db", b"\\.example\\.org$", b"0[12]", b"^prod-web01$", b"", b".*", b"^$", b"(?i)WEB", b":2222$", b"^web01:2222$", b"x|db"]
+FHOSTS = [b"web01", b"web010", b"web01:2222", b"prod-web01", b"prod-web01.example.org", b"xweb01x", b"db01", b"db02.example.org", b"web02", b"WEB03", b""]
 HOSTS = [b"a", b"b", b"srv1", b"srv1:2222", b"srv2.example.org", b"10.0.0.1", b"10.0.0.1:22", b"", b" ", b"x y", b"H\xc3\xb6st"]
 
 
@@ -43,6 +45,12 @@ def gen(rng, budget, tier):
         n = rng.choice([0, 1, 2, 3, 5, 10, 50]) if r < 0.95 else rng.choice([500, 5000])
         pool = HOSTS if n < 50 else [b"h%d" % k for k in range(max(1, n // 2))]
         items = [rng.choice(pool) for _ in range(n)]
+        if rng.random() < 0.15:
+            # a /regex/ filter over a list from a plugged-in discovery module: anchored literals, prefixes, suffixes
+            ents = [rng.choice(FHOSTS) for _ in range(rng.choice([1, 3, 6, 12]))]
+            ents = [e for e in ents if b"," not in e]
+            yield "c18.filter " + hexs(b",".join(ents)) + " " + hexs(rng.choice(FILTERS))
+            continue
         if rng.random() < 0.1:
             yield "c18.list " + hexs(b"/" + rng.choice([b"", b"^$", b"a", b".*", b"x|", b"^.+$"]) + b"/")
         elif rng.random() < 0.5:
